@@ -211,6 +211,15 @@ func (g *Gen) eval(e Expr, env *Env) Val {
 				}
 			}
 		}
+		if _, nested := x.X.(*ESel); nested && env.symHeap == nil {
+			// x.inner.f where inner is a struct-valued field: select through the location, so that ghost fields of
+			// the nested struct are reachable
+			if ap, ok := g.evalAddr(x.X, env); ok {
+				if _, isGhost := g.ghostFieldType(env, ap.T, x.Name); isGhost {
+					return g.selField(Val{K: kPtr, P: &ap, T: types.NewPointer(ap.T)}, x.Name, env)
+				}
+			}
+		}
 		v := g.eval(x.X, env)
 		return g.selField(v, x.Name, env)
 	case *EIndex:
@@ -318,6 +327,9 @@ func (g *Gen) selField(v Val, name string, env *Env) Val {
 				return g.envLoad(env, Ptr{Prefix: v.P.Prefix + "." + name, Idx: v.P.Idx, T: st.Field(i).Type()})
 			}
 		}
+		if gt, ok := g.ghostFieldType(env, v.P.T, name); ok {
+			return g.envLoad(env, Ptr{Prefix: v.P.Prefix + ".ghost:" + name, Idx: v.P.Idx, T: gt})
+		}
 		panic(contractErr("no field %s in %s", name, v.P.T))
 	}
 	if pt, ok := t.Underlying().(*types.Pointer); ok {
@@ -358,7 +370,7 @@ func (g *Gen) selField(v Val, name string, env *Env) Val {
 func (g *Gen) ghostFieldType(env *Env, t types.Type, name string) (types.Type, bool) {
 	tn := g.typeName(t)
 	for _, gf := range g.allGhostFields() {
-		if gf.Name == name && (gf.Struct == tn || lastPkgElem(gf.Struct) == tn) {
+		if gf.Name == name && (gf.Struct == tn || lastPkgElem(gf.Struct) == tn || lastPkgElem(tn) == gf.Struct) {
 			return g.resolveType(env, gf.Type), true
 		}
 	}
